@@ -505,6 +505,10 @@ func runR_C13(c *Ctx) {
 	rR1(c, ps...)
 	rR2(c, ps...)
 	rConstIndex(c, ps...)
+	// Sort, Min and Max are specified under derived Compare: what they return is only "sorted" / "an element no other one
+	// precedes" if the order they are generated to use is a total order, so the compare plugin's own rules are part of this check
+	// (as the equal and hash rules are part of C04, C14 and C18)
+	compareCoreRules(c, true)
 	sortLessRules(c)
 	// keys
 	for _, rs := range c.acceptedResids("keys") {
